@@ -39,6 +39,7 @@ type Prepared struct {
 	Normalize     func(j *Job, pkg string, v *interp.Violation) Sig
 	ExpectReach   map[string][]string // job name -> reach ids that must be witnessed
 	Cleanup       func()
+	AllRuns       bool // native replays of assertion failures must fail in every run (byte-level comparisons of two encodings)
 }
 
 // Sig identifies a failing site (not the failing input).
@@ -356,10 +357,10 @@ func RunCheck(ctx *Ctx, prepare func(*Ctx) (*Prepared, error), level string) int
 				if v.v.Kind == "assert" {
 					runs = 24
 				}
-				cases = append(cases, ReplayCase{Func: v.harness, Script: v.v.Script, Runs: runs, Kind: v.v.Kind, ID: v.v.ID, Group: vi + 1})
+				cases = append(cases, ReplayCase{Func: v.harness, Script: v.v.Script, Runs: runs, Kind: v.v.Kind, ID: v.v.ID, Group: vi + 1, AllRuns: prep.AllRuns})
 				owner = append(owner, vi)
 				for _, alt := range v.v.Alt {
-					cases = append(cases, ReplayCase{Func: v.harness, Script: alt, Runs: runs, Kind: v.v.Kind, ID: v.v.ID, Group: vi + 1})
+					cases = append(cases, ReplayCase{Func: v.harness, Script: alt, Runs: runs, Kind: v.v.Kind, ID: v.v.ID, Group: vi + 1, AllRuns: prep.AllRuns})
 					owner = append(owner, vi)
 				}
 			}
